@@ -54,7 +54,7 @@ def chain_from_shape(parents, mults, leafcounts, names, leaves, bfs):
     return {"mother": names[0], "types": types}
 
 
-def random_chain(rng, n, max_mult=3, names=None, reuse=True):
+def random_chain(rng, n, max_mult=3, names=None, reuse=True, empty=0.0):
     """Random acyclic type-level chain with n decaying types; later types may re-occur under several parents
     (same particle at several depths) and several times in one final state."""
     names = names or name_pool(rng, n)
@@ -66,6 +66,8 @@ def random_chain(rng, n, max_mult=3, names=None, reuse=True):
         for _ in range(rng.randint(1, 3)):
             x = rng.choice(later) if later and rng.random() < 0.6 else rng.choice(stable)
             ds += [x] * rng.randint(1, max_mult)
+        if i >= 1 and rng.random() < empty:
+            ds = []         # a decaying particle whose decay mode has no daughters at all (e.g. an invisible decay kept for its branching fraction)
         types[names[i]] = [round(rng.uniform(0.05, 0.95), 4), ds]
     # make every type reachable: chain unreachable ones under a reachable earlier one
     reach = reachable(types, names[0])
